@@ -72,6 +72,9 @@ func genC18(r *Rand, idx int, strict bool, tier string) Case {
 		dt = nsDt
 	}
 	x := r.Intn(100)
+	if x >= 88 {
+		return genConnFlood(r, idx, strict, dt)
+	}
 	switch {
 	case x < 12: // a bare TokenBucket
 		t := rlTarget{kind: tBucket, rate: fracRate(r, strict), burst: pickBurst(r)}
@@ -145,6 +148,48 @@ func genC18(r *Rand, idx int, strict bool, tier string) Case {
 	}
 }
 
+// connFloodCfg: per-connection limit well below the per-IP limit (as in the defaults), small global budget.
+func connFloodCfg(r *Rand) absnfs.RateLimiterConfig {
+	return absnfs.RateLimiterConfig{
+		GlobalRequestsPerSecond:        PickInt(r, 3, 5, 5, 10),
+		PerIPRequestsPerSecond:         PickInt(r, 10, 1000, 1000),
+		PerIPBurstSize:                 PickInt(r, 100, 500, 1000),
+		PerConnectionRequestsPerSecond: PickInt(r, 1, 1, 3),
+		PerConnectionBurstSize:         PickInt(r, 1, 2, 2, 5),
+		ReadLargeOpsPerSecond:          1, WriteLargeOpsPerSecond: 1, ReaddirOpsPerSecond: 1, MountOpsPerMinute: 60,
+		CleanupInterval: pickCleanup(r),
+	}
+}
+
+// genConnFlood: one connection sends far more than its per-connection burst back to back (its address stays within
+// the per-IP limit), then fresh clients send one request each while the ADMITTED total is still below the global burst.
+func genConnFlood(r *Rand, idx int, strict bool, dt func(*Rand, []float64) int64) Case {
+	c := connFloodCfg(r)
+	var evs []rlEvent
+	next := uint64(1)
+	for phase := 0; phase < 1+r.Intn(3); phase++ {
+		first := dt(r, []float64{float64(c.GlobalRequestsPerSecond)})
+		n := 15 + r.Intn(60)
+		for i := 0; i < n; i++ {
+			d := int64(0)
+			if i == 0 {
+				d = first
+			} else if r.Chance(10) {
+				d = int64(1+r.Intn(3)) * tick
+				if !strict {
+					d = int64(1 + r.Intn(5_000_000))
+				}
+			}
+			evs = append(evs, rlEvent{dt: d, kind: evReq, ip: 0, conn: 0})
+		}
+		for k := 0; k < 2+r.Intn(3); k++ {
+			evs = append(evs, rlEvent{dt: 0, kind: evReq, ip: next, conn: next})
+			next++
+		}
+	}
+	return runRL(rlTarget{kind: tFull, cfg: c}, strict, evs, "conn-flood", idx)
+}
+
 func reqs(n int, dt int64, ip, conn uint64) []rlEvent {
 	var evs []rlEvent
 	for i := 0; i < n; i++ {
@@ -201,6 +246,16 @@ func corpusC18() []Case {
 		ev3 = append(ev3, rlEvent{dt: int64(i%3) * tick, kind: evReq, ip: uint64((i * 7) % 130)})
 	}
 	cs = append(cs, runRL(rlTarget{kind: tPerIP, rate: 0.5, burst: 1, iv: time.Second}, true, ev3, "perip-over-cap", 7))
+	// one connection floods past its per-connection burst (per-connection limit below the per-IP limit, as in the
+	// defaults); three fresh clients must then still be admitted: only 2 requests were admitted, the global burst is 5
+	cf := absnfs.RateLimiterConfig{GlobalRequestsPerSecond: 5, PerIPRequestsPerSecond: 1000, PerIPBurstSize: 1000,
+		PerConnectionRequestsPerSecond: 1, PerConnectionBurstSize: 2, ReadLargeOpsPerSecond: 1, WriteLargeOpsPerSecond: 1,
+		ReaddirOpsPerSecond: 1, MountOpsPerMinute: 60, CleanupInterval: 5 * time.Minute}
+	ev4 := reqs(200, 0, 0, 0)
+	for i := uint64(1); i <= 3; i++ {
+		ev4 = append(ev4, rlEvent{dt: 0, kind: evReq, ip: i, conn: i})
+	}
+	cs = append(cs, runRL(rlTarget{kind: tFull, cfg: cf}, true, ev4, "conn-flood-then-fresh-clients", 8))
 	return cs
 }
 
